@@ -42,7 +42,7 @@ def bounds(tier):
     return {"solver": [str(s) for s in SOLVERS], "step variants": {str(k): v for k, v in STEPV.items()}, "lamda": [0, 0.5],
             "z": ["None", "array"], "proxg": ["None", "L1Reg(0.3)", "L2Reg(0.5)", "BoxConstraint(-0.25,0.4)"],
             "G": ["None", "dense 3xn", "FiniteDifference"], "x": ["None", "zeros", "minimiser of the smooth part", "the minimiser", "generic"],
-            "A": ["Identity", "dense real 3x2"] + (["Multiply(diag)", "dense complex 3x2"] if tier == "thorough" else [])}
+            "A": ["Identity", "dense real 3x2", "2x2 and circulant 3x3 with the constant vector as a non-dominant eigenvector of A^H A"] + (["Multiply(diag)", "dense complex 3x2"] if tier == "thorough" else [])}
 
 
 def gen_cases(tier, seed):
@@ -59,6 +59,14 @@ def gen_cases(tier, seed):
                             for G in (None, "dense", "fd"):
                                 for xg in (False, True):
                                     cases.append(dict(kind="lls", A=A, solver=solver, step=sv, lamda=lam, z=z, proxg=pg, G=G, x=xg))
+    # operators with exact structure (constant vector = non-dominant eigenvector of A^H A): every solver, default steps
+    for A in ("sym2", "circ3"):
+        for solver in SOLVERS:
+            for lam in (0, 0.5):
+                for pg in (None, "l1", "box"):
+                    if solver == "ConjugateGradient" and pg:
+                        continue
+                    cases.append(dict(kind="lls", A=A, solver=solver, step=STEPV[solver][0], lamda=lam, z=False, proxg=pg, G=None, x=False))
     # warm starts: the initial x as the minimiser of the smooth part, as the minimiser itself, and a generic vector
     for A in ("identity", "multiply", "real32"):
         for solver in SOLVERS:
@@ -91,7 +99,9 @@ def setup(case, seed):
     r = np.random.default_rng(31 + seed)
     An = case["A"]
     cplx = An == "cplx32"
-    n = 2 if An in ("real32", "cplx32") else 3
+    n = 2 if An in ("real32", "cplx32", "sym2", "circ3") else 3
+    if An == "circ3":
+        n = 3
     if An == "identity":
         A = sp.linop.Identity([n])
         Am = np.eye(n)
@@ -99,10 +109,18 @@ def setup(case, seed):
         d = np.array([1.0, 0.5, 2.0])
         A = sp.linop.Multiply([n], d)
         Am = np.diag(d)
+    elif An == "sym2":
+        # structured operators: the constant vector is an exact eigenvector of A^H A, and NOT the dominant one
+        # (A^H A = [[5,-3],[-3,5]]: eigenvalue 2 on (1,1), 8 on (1,-1))
+        Am = np.array([[2.0, -2.0], [1.0, 1.0]])
+        A = sp.linop.MatMul([n, 1], Am)
+    elif An == "circ3":
+        Am = np.array([[2.0, -1.0, 0.0], [0.0, 2.0, -1.0], [-1.0, 0.0, 2.0]])     # circulant: A^H A has eigenvalue 1 on ones, 7 elsewhere
+        A = sp.linop.MatMul([n, 1], Am)
     else:
         Am = r.standard_normal((3, 2)) + (1j * r.standard_normal((3, 2)) if cplx else 0)
         A = sp.linop.MatMul([n, 1], Am)
-    col = An in ("real32", "cplx32")
+    col = An in ("real32", "cplx32", "sym2", "circ3")
     shp = [n, 1] if col else [n]
     dt = np.complex128 if cplx else np.float64
     xt = np.array([0.8, -0.05, 0.3][:n], dtype=dt) * ((1 + 0.5j) if cplx else 1)
